@@ -33,5 +33,5 @@ def run(v, tier, seed, replay):
         c09.run_scenarios(v, {"cancel-split-%d" % k: c09.sc_cancel_split(k) for k in (1, 2, 3)}, with_model=False, jobs=3)
     # D21: the cancel is parked on its thread, the root finishes elsewhere (model: Sys.parkedCancels / takeParked)
     if not replay and not v.violations:
-        c09.run_scenarios(v, {"cancel-parked-%s" % k: c09.sc_cancel_parked_elsewhere(k) for k in ("plain", "second-pass", "exit", "default")},
-                          with_model=True, jobs=4)
+        c09.run_scenarios(v, {"cancel-parked-%s" % k: c09.sc_cancel_parked_elsewhere(k) for k in c09.PARKED_VARIANTS},
+                          with_model=True, jobs=6)
